@@ -379,8 +379,6 @@ TABLE = {
     # key prefix (function | what | operand pattern) -> (reason, precondition checker name)
     'p2pk_to_string|call:panic|"internal error: entered unreachable code"':
         ('is_p2pk(script) holds at the only call site; rust-bitcoin 0.32.5 is_p2pk accepts exactly `<push 33|65 bytes> OP_CHECKSIG`, whose first instruction decodes to Ok(PushBytes) — the `_` arm is dead', 'caller_is_p2pk'),
-    'arr_to_hex::{closure#0}|call:unwrap|write_fmt(':
-        ('fmt::Write for String never returns Err', 'write_to_string'),
     'process_tx_pattern|Overflow(Add)|or_insert(entry(self.n_tx_types':
         ('one increment per processed output; 2^64 outputs cannot be processed', 'none'),
     'insert_unspents|Overflow(Add)|sum(1);1':
@@ -396,6 +394,29 @@ TABLE = {
     'TxOutput as blockchain::proto::ToRaw>::to_bytes|Overflow(Add)|(8 + 5);(self.script_len.value as usize)':
         ('as above', 'none'),
 }
+
+
+def discharge_infallible_write(env, s):
+    """`write!(string, ..).unwrap()`: <String as fmt::Write>::write_str never returns Err, so write_fmt only fails if a
+    formatted value's own fmt impl does; the arguments here are integers"""
+    if s.what not in ('call:unwrap', 'call:expect') or s.cs is None or not s.cs.args:
+        return None
+    a0 = s.cs.args[0]
+    if a0['k'] not in ('move', 'copy') or a0['place']['p']:
+        return None
+    ds = s.body.defs().get(a0['place']['l'], [])
+    if len(ds) != 1 or ds[0][0] != 'call':
+        return None
+    w = ds[0][2]
+    if mir.method_name(w.name) != 'write_fmt' or not w.args or w.args[0]['k'] not in ('move', 'copy'):
+        return None
+    if w.args[0]['place']['ty'] != '&mut std::string::String':
+        return None
+    fa = [f for f in mir.fmt_sites(s.body) if True]
+    prim = all(a[1] in ('Display', 'Debug', 'LowerHex', 'UpperHex') for f in fa for a in f.args)
+    if not prim:
+        return None
+    return ('infallible-write', 'write_fmt into a String cannot fail (fmt::Write for String is infallible)')
 
 
 def table_lookup(s):
@@ -414,9 +435,6 @@ def precondition(env, name, s):
     if name == 'caller_is_p2pk':
         callers = prog.callers_of(s.body)
         return len(callers) == 1 and any(g.startswith('is_p2pk(') for g in util.guards_at(callers[0].body, callers[0].bb))
-    if name == 'write_to_string':
-        cs = [c for c in s.body.calls if mir.method_name(c.name) == 'write_fmt']
-        return len(cs) == 1 and cs[0].args[0]['place']['ty'] == '&mut std::string::String'
     if name == 'first_occ_pairing':
         writers = set()
         for b in prog.bodies.values():
@@ -552,6 +570,8 @@ def rule_inventory(ctx):
                 res = discharge_struct_invariant(env, s)
             if res is None and s.kind == 'call' and s.what in ('call:panic', 'call:panic_fmt'):
                 res = discharge_callee_guard(env, s)
+            if res is None and s.kind == 'call':
+                res = discharge_infallible_write(env, s)
             if res is None:
                 k, ent = table_lookup(s)
                 if ent is not None:
